@@ -309,7 +309,27 @@ class Program:
             "bi": getattr(self, "bi", {"none": []}),
             "sets": sets,
             "rules": rules,
+            "scopes": [sc for _, _, sc in self.env],
+            "named": self.named,
         }
+
+    @staticmethod
+    def from_json(j):
+        rules = j["rules"]
+        sets = []
+        for s in j["sets"]:
+            rs = []
+            for i in s["rules"]:
+                r = rules[i]
+                rs.append({"re": r["re"], "ctx": r["ctx"][0] if r["ctx"] else None,
+                           "kind": r["kind"], "menu": r["menu"]})
+            sets.append((s["name"], rs))
+        env = [(e["n"], e["re"], sc) for e, sc in zip(j["env"], j.get("scopes", [-1] * len(j["env"])))]
+        p = Program(j["id"], sets, env=env, sigma=j["sigma"], k=j["k"], inputs=j["inputs"],
+                    named=j.get("named", True))
+        if "bi" in j:
+            p.bi = j["bi"]
+        return p
 
     def well_formed(self, builtins=None):
         env = self.envmap()
